@@ -108,6 +108,7 @@ def table(fl: Flow, keep: Optional[Callable[[str, str], bool]] = None):
             pr_.assume = None
         if keep is not None and not keep(e.kind, s):
             continue
+        fl.__dict__.setdefault("_cbools", {})[id(e)] = pr_._bool(_cond_ast(cond)) if cond else ("const", True)
         effs.append((e.kind, s, fl.canon_cond(cond), e))
     return rets, effs
 
@@ -314,6 +315,30 @@ def compare(rule: Rule, model: Model, f: FuncInfo, ref_src: str, key: str, *,
         rule.check(ok, f"{key}|returns", f.loc(), msg)
     gm = Counter((k, s, c) for k, s, c, _ in got_e)
     rm = Counter((k, s, c) for k, s, c, _ in ref_e)
+    if gm != rm:
+        # the same effect under conditions that print differently may still happen under the same condition: decide the leftovers by
+        # a joint truth table of the two conditions (atom theory and linear arithmetic of sa.symflow / sa.ranges included)
+        extra_c, missing_c = gm - rm, rm - gm
+        gb, rb = fl.__dict__.get("_cbools", {}), rf.__dict__.get("_cbools", {})
+        pr = fl.cprinter
+        for (k, s, c), n_ in list(extra_c.items()):
+            for _ in range(n_):
+                cand = [(k2, s2, c2) for (k2, s2, c2), n2 in missing_c.items() if n2 > 0 and k2 == k and s2 == s]
+                bg = next((gb.get(id(e)) for k3, s3, c3, e in got_e if (k3, s3, c3) == (k, s, c)), None)
+                hit = None
+                for (k2, s2, c2) in cand:
+                    br = next((rb.get(id(e)) for k3, s3, c3, e in ref_e if (k3, s3, c3) == (k2, s2, c2)), None)
+                    if bg is None or br is None:
+                        continue
+                    t = pr._tables([bg, br])
+                    if t is not None and t[1][0] == t[1][1]:
+                        hit = (k2, s2, c2)
+                        break
+                if hit is not None:
+                    missing_c[hit] -= 1
+                    gm[(k, s, c)] -= 1
+                    rm[hit] -= 1
+        gm, rm = +gm, +rm
     ok = gm == rm
     ok_all &= ok
     msg = ""
